@@ -94,7 +94,7 @@ Proof.
   - apply IH.
   - apply SS_const. intros a b _ _. unfold ge_tag. cbn. lia.
   - intros a b Ha Hb. apply in_map_iff in Hb. destruct Hb as [u [<- _]].
-    apply in_concat_rev in Ha. apply tag_levels_ge in Ha. unfold ge_tag. cbn [fst]. lia.
+    apply (proj1 (in_concat_rev _ _)) in Ha. apply tag_levels_ge in Ha. unfold ge_tag. cbn [fst]. lia.
 Qed.
 
 Lemma untag_levels i ls : map (map snd) (tag_levels i ls) = ls.
@@ -166,7 +166,7 @@ Proof.
   pose proof (SS_app_elim _ _ _ Hs tp tc Htp Htc) as Hge. unfold ge_tag in Hge.
   assert (Hlt : (fst tp < fst tc)%nat).
   { apply (levels_ok_spec e levels Hlv c p tc tp Hin); auto;
-      unfold tagged; apply in_concat_rev; rewrite HT; apply in_or_app; auto. }
+      unfold tagged; apply (proj1 (in_concat_rev _ _)); rewrite HT; apply in_or_app; auto. }
   lia.
 Qed.
 
@@ -240,7 +240,7 @@ Section Leveled.
   Lemma lv_same k : In k (map ukey us1) <-> In k (map ukey us2).
   Proof.
     unfold us1, us2. split; intros Hk; apply in_map_iff in Hk; destruct Hk as [u [Hk Hu]];
-      apply in_map_iff; exists u; (split; [exact Hk|]); apply in_concat_rev; exact Hu.
+      apply in_map_iff; exists u; (split; [exact Hk|]); [apply (proj2 (in_concat_rev _ _))|apply (proj1 (in_concat_rev _ _))]; exact Hu.
   Qed.
 
   Lemma lv_nd2 : NoDup (map ukey us2).
@@ -260,7 +260,7 @@ Section Leveled.
 
   Lemma lv_us2 u : In u us2 -> uval u = new (ukey u) /\ -1 <= uval u.
   Proof.
-    intros Hu. apply in_concat_rev in Hu. fold us1 in Hu. split.
+    intros Hu. apply (proj1 (in_concat_rev _ _)) in Hu. fold us1 in Hu. split.
     - symmetry. apply lv_new_in. exact Hu.
     - apply vok_ge with (kindof e (ukey u)). apply (h_vals_us _ _ _ H u Hu).
   Qed.
@@ -283,30 +283,41 @@ Section Leveled.
 
   Let res := leveled_update e st levels.
 
-  Ltac two_pass lem :=
-    unfold res; rewrite leveled_update_eq; cbn [fst snd];
-    apply (lem e (merge_step e) us1 us2 old new J st);
-    [ apply (h_kinds _ _ _ H) | apply (h_start _ _ _ H) | apply (h_target _ _ _ H)
-    | apply lv_oJ | apply lv_nJ | apply lv_Jm | reflexivity | exact Hcoh
-    | apply (h_nodup _ _ _ H) | apply lv_nd2 | apply lv_same | apply lv_out
-    | apply lv_step1 | apply lv_us2
-    | apply leveled_ord1, (h_levels _ _ _ H) | apply leveled_ord2, (h_levels _ _ _ H) ].
+  Lemma leveled_all :
+    every_prefix_valid e (sfs st) (snd res)
+    /\ (forall k, get (sfs (fst res)) k = new k)
+    /\ coherent_st (fst res)
+    /\ (forall k, inb k (map ukey us1) = false -> lookup (scache (fst res)) k = lookup (scache st) k)
+    /\ sfs (fst res) = apply_writes e (snd res) (sfs st)
+    /\ (forall pre w suf, snd res = pre ++ w :: suf ->
+          In (fst w) (map ukey us1)
+          /\ (on_q e (fst w) = false ->
+                get (apply_writes e pre (sfs st)) (fst w) <> norm_at e (fst w) (snd w)
+                /\ (J (fst w) <> old (fst w) \/ new (fst w) <> J (fst w)))
+          /\ (snd w = J (fst w) \/ snd w = new (fst w) \/ (on_q e (fst w) = true /\ snd w = -2))).
+  Proof.
+    unfold res. rewrite leveled_update_eq. cbn [fst snd].
+    apply (two_pass_all e (merge_step e) us1 us2 old new J st
+             (h_kinds _ _ _ H) (h_start _ _ _ H) (h_target _ _ _ H) lv_oJ lv_nJ lv_Jm
+             (fun k => eq_refl) Hcoh (h_nodup _ _ _ H) lv_nd2 lv_same lv_out lv_step1 lv_us2
+             (leveled_ord1 e levels (h_levels _ _ _ H)) (leveled_ord2 e levels (h_levels _ _ _ H))).
+  Qed.
 
   Theorem leveled_prefix_valid : every_prefix_valid e (sfs st) (snd res).
-  Proof. two_pass two_pass_prefix_valid. Qed.
+  Proof. apply leveled_all. Qed.
 
   Theorem leveled_final : forall k, get (sfs (fst res)) k = get (target_of (sfs st) (concat levels)) k.
-  Proof. two_pass two_pass_final. Qed.
+  Proof. apply leveled_all. Qed.
 
   Theorem leveled_coherent : coherent_st (fst res).
-  Proof. two_pass two_pass_coherent. Qed.
+  Proof. apply leveled_all. Qed.
 
   Theorem leveled_cache_frame :
     forall k, inb k (map ukey (concat levels)) = false -> lookup (scache (fst res)) k = lookup (scache st) k.
-  Proof. two_pass two_pass_cache_frame. Qed.
+  Proof. apply leveled_all. Qed.
 
   Theorem leveled_apply : sfs (fst res) = apply_writes e (snd res) (sfs st).
-  Proof. two_pass two_pass_apply. Qed.
+  Proof. apply leveled_all. Qed.
 
   Lemma leveled_writes pre w suf :
     snd res = pre ++ w :: suf ->
@@ -315,7 +326,7 @@ Section Leveled.
           get (apply_writes e pre (sfs st)) (fst w) <> norm_at e (fst w) (snd w)
           /\ (J (fst w) <> old (fst w) \/ new (fst w) <> J (fst w)))
     /\ (snd w = J (fst w) \/ snd w = new (fst w) \/ (on_q e (fst w) = true /\ snd w = -2)).
-  Proof. revert pre w suf. two_pass two_pass_writes. Qed.
+  Proof. revert pre w suf. apply leveled_all. Qed.
 
   Theorem leveled_valid_after : validb e (sfs (fst res)) = true.
   Proof.
